@@ -16,6 +16,7 @@ import re
 from .. import astutil as A
 from ..fa import FA
 from ..loader import AnalysisError, FuncInfo
+from . import partition_model as PM
 
 # constructor keyword -> configuration key (names differ only here)
 ARG_TO_KEY = {"read_only": "readonly"}
@@ -26,6 +27,300 @@ BACKENDS = [
     ("runner_local", "LocalRunnerBackend", "runner"),
     ("runner_null", "NullRunnerBackend", "runner"),
 ]
+
+
+# =====================================================================================================
+# one spelling: literal loops unrolled, constant-keyed scratch dicts as locals, setattr / getattr with a constant
+# name as attribute access, map(lambda) as a comprehension
+# =====================================================================================================
+def _subst_names(node, env):
+    class S(ast.NodeTransformer):
+        def visit_Name(self, n):
+            if n.id in env and isinstance(n.ctx, ast.Load):
+                return copy.deepcopy(env[n.id])
+            return n
+
+    return S().visit(copy.deepcopy(node))
+
+
+def _const_attr_access(node):
+    """setattr(o, 'a', v) as a statement -> o.a = v; getattr(o, 'a') -> o.a; list(map(lambda x: E, IT)) -> [E for x in IT]"""
+    class G(ast.NodeTransformer):
+        def visit_Call(self, n):
+            self.generic_visit(n)
+            if isinstance(n.func, ast.Name) and n.func.id == "getattr" and len(n.args) == 2 and not n.keywords and A.const_str(n.args[1]) \
+                    and A.const_str(n.args[1]).isidentifier():
+                return ast.copy_location(ast.Attribute(value=n.args[0], attr=A.const_str(n.args[1]), ctx=ast.Load()), n)
+            if isinstance(n.func, ast.Name) and n.func.id in ("list", "tuple") and len(n.args) == 1 and not n.keywords and isinstance(n.args[0], ast.Call) \
+                    and isinstance(n.args[0].func, ast.Name) and n.args[0].func.id == "map" and len(n.args[0].args) == 2 and not n.args[0].keywords \
+                    and isinstance(n.args[0].args[0], ast.Lambda):
+                lam, it = n.args[0].args
+                a = lam.args
+                if len(a.args) == 1 and not (a.vararg or a.kwarg or a.kwonlyargs or a.posonlyargs or a.defaults):
+                    gen = ast.comprehension(target=ast.Name(id=a.args[0].arg, ctx=ast.Store()), iter=it, ifs=[], is_async=0)
+                    return ast.copy_location(ast.ListComp(elt=lam.body, generators=[gen]), n)
+            return n
+
+    node = G().visit(node)
+    if isinstance(node, ast.Expr) and isinstance(node.value, ast.Call) and isinstance(node.value.func, ast.Name) and node.value.func.id == "setattr" \
+            and len(node.value.args) == 3 and not node.value.keywords and A.const_str(node.value.args[1]) and A.const_str(node.value.args[1]).isidentifier():
+        c = node.value
+        tgt = ast.Attribute(value=c.args[0], attr=A.const_str(c.args[1]), ctx=ast.Store())
+        return ast.fix_missing_locations(ast.copy_location(ast.Assign(targets=[tgt], value=c.args[2], type_comment=None), node))
+    return node
+
+
+def _literal_dicts(node):
+    """{name: Dict node} for the locals that are bound once, to a dict display / dict(k=v) with constant keys, and
+    never changed afterwards (no item store, no mutating call, not handed to anything but `**`)."""
+    pm = A.parent_map(node)
+    occ = {}
+    for x in A.walk_body(node):
+        if isinstance(x, ast.Name):
+            occ.setdefault(x.id, []).append(x)
+    out = {}
+    for name, xs in occ.items():
+        inits, ok = [], True
+        for x in xs:
+            p_ = pm.get(x)
+            if isinstance(p_, ast.Assign) and len(p_.targets) == 1 and p_.targets[0] is x:
+                inits.append(p_.value)
+            elif isinstance(x.ctx, ast.Store):
+                ok = False
+            elif isinstance(p_, ast.Subscript) and p_.value is x and isinstance(p_.ctx, (ast.Store, ast.Del)):
+                ok = False
+            elif isinstance(p_, ast.Attribute) and p_.value is x and p_.attr in _MUTATORS:
+                ok = False
+        if not ok or len(inits) != 1:
+            continue
+        v = inits[0]
+        if isinstance(v, ast.Call) and isinstance(v.func, ast.Name) and v.func.id == "dict" and not v.args and v.keywords and all(k.arg for k in v.keywords):
+            v = ast.Dict(keys=[ast.Constant(k.arg) for k in v.keywords], values=[k.value for k in v.keywords])
+        if isinstance(v, ast.Dict) and v.keys and all(k is not None and A.const_str(k) is not None for k in v.keys):
+            out[name] = v
+        elif isinstance(v, (ast.Tuple, ast.List)) and v.elts and not any(isinstance(x, ast.Starred) for x in v.elts):
+            out[name] = v  # a literal sequence walked by a loop
+    return out
+
+
+def _plain_stmt(mod, tables):
+    def one(st):
+        for p_ in PM._lower_stmt(st, pour_only=True):
+            if p_ is not st:
+                PM._rewrite_blocks(p_, one)
+                return one(p_)
+        if isinstance(st, ast.For) and not st.orelse:
+            it = st.iter
+            if isinstance(it, ast.Name) and it.id in mod.assigns:
+                it = mod.assigns[it.id]
+            # a local table: `for k, v in overrides.items()` / `for k in overrides`
+            tbl, view_ = it, "keys"
+            if isinstance(it, ast.Call) and isinstance(it.func, ast.Attribute) and it.func.attr in ("items", "keys", "values") and not it.args and not it.keywords:
+                tbl, view_ = it.func.value, it.func.attr
+            if isinstance(it, ast.Name) and isinstance(tables.get(it.id), (ast.Tuple, ast.List)):
+                it = tables[it.id]
+            elif isinstance(tbl, ast.Name) and isinstance(tables.get(tbl.id), ast.Dict):
+                d = tables[tbl.id]
+                rows_ = {"items": [ast.Tuple(elts=[k, v], ctx=ast.Load()) for k, v in zip(d.keys, d.values)], "keys": list(d.keys), "values": list(d.values)}[view_]
+                it = ast.Tuple(elts=rows_, ctx=ast.Load())
+            names = [st.target.id] if isinstance(st.target, ast.Name) else \
+                ([x.id for x in st.target.elts] if isinstance(st.target, (ast.Tuple, ast.List)) and all(isinstance(x, ast.Name) for x in st.target.elts) else None)
+            jumps = any(isinstance(x, (ast.Break, ast.Continue)) for b in st.body for x in A.walk_local(b))
+            rebinds = names is not None and any(isinstance(x, ast.Name) and isinstance(x.ctx, ast.Store) and x.id in names for b in st.body for x in ast.walk(b))
+            if isinstance(it, (ast.Tuple, ast.List)) and 0 < len(it.elts) <= 16 and names is not None and not jumps and not rebinds \
+                    and not any(isinstance(e, ast.Starred) for e in it.elts):
+                rows = []
+                for e in it.elts:
+                    if isinstance(st.target, ast.Name):
+                        rows.append({names[0]: e})
+                    elif isinstance(e, (ast.Tuple, ast.List)) and len(e.elts) == len(names) and not any(isinstance(x, ast.Starred) for x in e.elts):
+                        rows.append(dict(zip(names, e.elts)))
+                    else:
+                        rows = None
+                        break
+                # an element is put in as often as the body mentions the loop variable: only elements without effects
+                simple = lambda x: isinstance(x, (ast.Constant, ast.Name)) or (isinstance(x, ast.Attribute) and simple(x.value))
+                if rows is not None and all(simple(v) for r_ in rows for v in r_.values()):
+                    out = []
+                    for r_ in rows:
+                        for b in st.body:
+                            nb = _subst_names(b, r_)
+                            PM._rewrite_blocks(nb, one)
+                            out += one(ast.fix_missing_locations(nb))
+                    return out
+        if isinstance(st, (ast.Expr, ast.Assign, ast.AnnAssign, ast.AugAssign, ast.Return)):
+            # f(a, **common) with `common` a literal table: the keywords written out
+            for c in [x for x in A.walk_local(st) if isinstance(x, ast.Call)]:
+                kws = []
+                for k in c.keywords:
+                    if k.arg is None and isinstance(k.value, ast.Name) and isinstance(tables.get(k.value.id), ast.Dict):
+                        d = tables[k.value.id]
+                        if all(A.const_str(kk).isidentifier() for kk in d.keys):
+                            kws += [ast.keyword(arg=A.const_str(kk), value=vv) for kk, vv in zip(d.keys, d.values)]
+                            continue
+                    kws.append(k)
+                c.keywords = kws
+            return [_const_attr_access(st)]
+        if isinstance(st, (ast.If, ast.While)):
+            st.test = _const_attr_access(st.test)
+        return [st]
+
+    return one
+
+
+def _scalarise(node):
+    """A local dict that is only ever used as `d['k']` with constant keys (after `d = {}` / a literal with constant
+    keys) is a bundle of locals: d['k'] -> d__k."""
+    uses = {}
+    pm = A.parent_map(node)
+    for x in A.walk_body(node):
+        if isinstance(x, ast.Name):
+            uses.setdefault(x.id, []).append(x)
+    params = {a.arg for a in node.args.posonlyargs + node.args.args + node.args.kwonlyargs} | ({node.args.vararg.arg} if node.args.vararg else set()) | \
+        ({node.args.kwarg.arg} if node.args.kwarg else set())
+    for name, occ in uses.items():
+        if name in params:
+            continue
+        inits, ok = [], True
+        for x in occ:
+            p_ = pm.get(x)
+            if isinstance(p_, ast.Assign) and len(p_.targets) == 1 and p_.targets[0] is x and (
+                    _is_empty_dict(p_.value) or (isinstance(p_.value, ast.Dict) and p_.value.keys and all(k is not None and A.const_str(k) for k in p_.value.keys))):
+                inits.append(p_)
+            elif isinstance(p_, ast.Subscript) and p_.value is x and A.const_str(p_.slice) and not isinstance(pm.get(p_), ast.Delete):
+                pass
+            else:
+                ok = False
+        if not ok or len(inits) != 1:
+            continue
+        local = lambda k: "%s__%s" % (name, re.sub(r"\W", "_", k))
+
+        class R(ast.NodeTransformer):
+            def visit_Subscript(self, n):
+                self.generic_visit(n)
+                if isinstance(n.value, ast.Name) and n.value.id == name and A.const_str(n.slice):
+                    return ast.copy_location(ast.Name(id=local(A.const_str(n.slice)), ctx=n.ctx), n)
+                return n
+
+        init = inits[0]
+
+        def one(st):
+            if st is init:
+                if isinstance(init.value, ast.Dict) and init.value.keys:
+                    return [ast.fix_missing_locations(ast.copy_location(ast.Assign(targets=[ast.Name(id=local(A.const_str(k)), ctx=ast.Store())], value=v, type_comment=None), init))
+                            for k, v in zip(init.value.keys, init.value.values)]
+                return []
+            return [st]
+
+        PM._rewrite_blocks(node, one)
+        R().visit(node)
+        ast.fix_missing_locations(node)
+    return node
+
+
+def _index_loops(node):
+    """`i = 0` ... `while i < len(S): x = S[i]; BODY; i += 1` with the counter used for nothing else  ->
+    `for x in S: BODY` (the positions of a sequence visited in order are its elements in order)."""
+    uses = {}
+    for x in A.walk_body(node):
+        if isinstance(x, ast.Name):
+            uses.setdefault(x.id, []).append(x)
+    pm = A.parent_map(node)
+
+    def one(st):
+        if not (isinstance(st, ast.While) and not st.orelse and len(st.body) >= 2):
+            return [st]
+        t = st.test
+        if not (isinstance(t, ast.Compare) and len(t.ops) == 1 and isinstance(t.ops[0], ast.Lt) and isinstance(t.left, ast.Name)
+                and isinstance(t.comparators[0], ast.Call) and isinstance(t.comparators[0].func, ast.Name) and t.comparators[0].func.id == "len"
+                and len(t.comparators[0].args) == 1):
+            return [st]
+        i, seq = t.left.id, t.comparators[0].args[0]
+        first, last = st.body[0], st.body[-1]
+        if not (isinstance(first, ast.Assign) and len(first.targets) == 1 and isinstance(first.targets[0], ast.Name) and isinstance(first.value, ast.Subscript)
+                and A.norm(first.value.value) == A.norm(seq) and isinstance(first.value.slice, ast.Name) and first.value.slice.id == i):
+            return [st]
+        if not (isinstance(last, ast.AugAssign) and isinstance(last.op, ast.Add) and isinstance(last.target, ast.Name) and last.target.id == i
+                and isinstance(last.value, ast.Constant) and last.value.value == 1):
+            return [st]
+        if any(isinstance(x, ast.Continue) for b in st.body for x in A.walk_local(b)):
+            return [st]
+        # the counter: set to 0 before, tested, used to pick the element, stepped -- nothing else
+        for x in uses.get(i, []):
+            p_ = pm.get(x)
+            fine = x is t.left or x is first.value.slice or x is last.target or \
+                (isinstance(p_, ast.Assign) and len(p_.targets) == 1 and p_.targets[0] is x and isinstance(p_.value, ast.Constant) and p_.value.value == 0)
+            if not fine:
+                return [st]
+        # the sequence is not changed while it is walked
+        seq_txt = A.norm(seq)
+        for b in st.body:
+            for x in A.walk_local(b):
+                if isinstance(x, (ast.Assign, ast.AugAssign, ast.Delete)) and seq_txt in A.norm(x).split(" = ")[0] and x is not first:
+                    return [st]
+                if isinstance(x, ast.Call) and isinstance(x.func, ast.Attribute) and A.norm(x.func.value) == seq_txt and x.func.attr in _MUTATORS:
+                    return [st]
+        loop = ast.For(target=first.targets[0], iter=seq, body=st.body[1:-1] or [ast.Pass()], orelse=[], type_comment=None)
+        return [ast.fix_missing_locations(ast.copy_location(loop, st))]
+
+    PM._rewrite_blocks(node, one)
+    return node
+
+
+def _plain(ck, fi):
+    memo = ck.__dict__.setdefault("_c18_plain", {})
+    key = (fi.qual, id(fi.node))
+    if key not in memo:
+        node = copy.deepcopy(fi.node)
+        try:
+            PM._rewrite_blocks(node, _plain_stmt(fi.module, _literal_dicts(node)))
+            node = _scalarise(node)
+            node = _index_loops(node)
+            changed = ast.dump(node) != ast.dump(fi.node)
+        except RecursionError:
+            changed = False
+        memo[key] = FuncInfo(fi.module, ast.fix_missing_locations(node), fi.qual, cls=fi.cls, parent=fi.parent) if changed else fi
+    return memo[key]
+
+
+def _FA(ck, qual_or_fi):
+    """The per-function bundle of the function in its plain spelling (see above)."""
+    fi = ck.fn(qual_or_fi) if isinstance(qual_or_fi, str) else qual_or_fi
+    return FA(ck, _plain(ck, fi))
+
+
+def _field_from_ctor_chain(ck, cls, init, field, bound, depth=4):
+    """The string constant a constructor chain leaves in `self.<field>`: the field is assigned from a constructor
+    parameter somewhere up the chain, and every `super().__init__(...)` on the way hands a constant (or its own
+    parameter, itself bound to a constant) down.  `bound`: parameter -> constant for `init`.  None when unknown."""
+    if depth <= 0 or init is None:
+        return None
+    for st_ in A.all_stmts(init.node):
+        if isinstance(st_, ast.Assign) and any(A.dotted(t_) == field for t_ in st_.targets):
+            v = st_.value
+            if isinstance(v, ast.Name) and v.id in bound:
+                return bound[v.id]
+            return _str_const(ck, init.module, cls, v)
+    sup = [c for c in A.body_calls(init.node) if A.call_attr(c) == "__init__" and isinstance(A.call_recv(c), ast.Call) and A.call_attr(A.call_recv(c)) == "super"]
+    owner = init.cls
+    if len(sup) != 1 or owner is None:
+        return None
+    mro = ck.repo.mro(owner)
+    binit = next((c.methods["__init__"] for c in mro[1:] if "__init__" in c.methods), None)
+    if binit is None:
+        return None
+    nb = {}
+    for i, p_ in enumerate([x for x in binit.params if x != "self"]):
+        a_ = A.arg_or_kw(sup[0], i, p_)
+        if a_ is None:
+            continue
+        if isinstance(a_, ast.Name) and a_.id in bound:
+            nb[p_] = bound[a_.id]
+        else:
+            c_ = _str_const(ck, init.module, cls, a_)
+            if c_ is not None:
+                nb[p_] = c_
+    return _field_from_ctor_chain(ck, cls, binit, field, nb, depth - 1)
 
 
 def _str_const(ck, mod, cls, e, depth=3):
@@ -405,7 +700,7 @@ def _value_cases(ck, fa: FA, lits, value, env, depth=3):
             continue
         env0 = {k: v for k, v in env.items() if k.startswith("self.")}
         env0.update(bound)
-        cfa = FA(ck, callee)
+        cfa = _FA(ck, callee)
         ps = _sym_paths(cfa, env0)
         if ps is None:
             out.append((ll, e))
@@ -444,7 +739,7 @@ def _config_reads(ck, cls, membership=False):
         if tag in seen or depth > 3:
             return
         seen.add(tag)
-        fa = FA(ck, fi)
+        fa = _FA(ck, fi)
 
         def is_cfg(e, at, stack=()):
             """True (the configuration object) / 'empty' (an empty dict standing in for it) / False"""
@@ -485,7 +780,7 @@ def _config_reads(ck, cls, membership=False):
                     return [A.const_str(x) for x in ds[0].value.elts]
             return []
 
-        for n in A.walk_body(fi.node):
+        for n in A.walk_body(fa.node):
             if not isinstance(n, (ast.Call, ast.Subscript, ast.Compare)):
                 continue
             ids = fa.nodes(n)
@@ -525,6 +820,7 @@ def _dump_entries(fa: FA):
     `d.update({k: v for k, v in ((K1, v1), ...) if ...})`, `d.setdefault(K, v)`.  `conditional` says whether the
     entry is written on every call."""
     entries = []
+    pruned = set()  # dictionaries whose entries pass a filter on their way into the returned one
     names = {r.value.id for r in fa.returns() if isinstance(r.value, ast.Name)}
 
     def bases(e):
@@ -539,6 +835,15 @@ def _dump_entries(fa: FA):
             return {A.call_recv(e).id}
         if isinstance(e, ast.BinOp) and isinstance(e.op, ast.BitOr):
             return bases(e.left) | bases(e.right)
+        if isinstance(e, ast.DictComp) and len(e.generators) == 1:
+            # {k: v for k, v in x.items() if <filter>}: the entries of x, each one possibly left out
+            g = e.generators[0]
+            if isinstance(g.iter, ast.Call) and A.call_attr(g.iter) == "items" and not g.iter.args and isinstance(A.call_recv(g.iter), ast.Name) \
+                    and isinstance(g.target, (ast.Tuple, ast.List)) and len(g.target.elts) == 2 and A.norm(e.key) == A.norm(g.target.elts[0]) \
+                    and A.norm(e.value) == A.norm(g.target.elts[1]):
+                if g.ifs:
+                    pruned.add(A.call_recv(g.iter).id)
+                return {A.call_recv(g.iter).id}
         return set()
 
     for r in fa.returns():
@@ -605,7 +910,8 @@ def _dump_entries(fa: FA):
             tg = st.targets if isinstance(st, ast.Assign) else [st.target]
             for t in tg:
                 if isinstance(t, ast.Name) and t.id in names:
-                    from_mapping(st.value if isinstance(st.value, (ast.Dict, ast.Call, ast.List, ast.Tuple)) else expanded(st.value, st), st, cond(st), "literal")
+                    from_mapping(st.value if isinstance(st.value, (ast.Dict, ast.Call, ast.List, ast.Tuple)) else expanded(st.value, st), st,
+                                 cond(st) or t.id in pruned, "literal")
                 if isinstance(t, ast.Subscript) and isinstance(t.value, ast.Name) and t.value.id in names:
                     if A.const_str(t.slice) is not None:
                         entries.append(_Entry(A.const_str(t.slice), st.value, cond(st), st, "store"))
@@ -652,7 +958,7 @@ def check_base_dir_final_before_use(ck, R):
     cluster / repository files are resolved against the value that results: on every path class, the directory
     handed to _load_config(...) inside the constructor is the value self.base_dir finally holds."""
     for q in ("configuration.ConfigurationRepository.__init__", "configuration.Environment.__init__"):
-        fa = FA(ck, q)
+        fa = _FA(ck, q)
         lcf = ck.repo.try_func("configuration._load_config")
         first = lcf.params[0] if lcf is not None and lcf.params else "base_dir"
         loads = [c for c in fa.calls("_load_config") if A.arg_or_kw(c, 0, first) is not None]
@@ -702,7 +1008,7 @@ def check_config_not_mutated(ck, R):
                 params = [p for p in m.params if p in ("config", "configuration", "cfg", "env_config", "storage_config", "runner_config")]
                 if not params:
                     continue
-                fa = FA(ck, m)
+                fa = _FA(ck, m)
                 n += 1
                 # a local that IS the caller's object (`cfg = config`, `cfg = {} if config is None else config`)
                 grew = True
@@ -729,13 +1035,18 @@ def _precedence(ck, R2, q):
     """For every constructor parameter p that is stored somewhere (a field or a local that also receives a value read
     from the configuration): on no path class does a configuration-derived value end up there unless `p is None`,
     and on some path class p itself does.  -> number of (parameter, slot) pairs decided."""
-    fa = FA(ck, q)
+    fa = _FA(ck, q)
     paths = _sym_paths(fa)
     ck.need(paths is not None, "%s: too many paths" % q)
     paths = [p for p in paths if p.end == "exit"]
     n = 0
     for p in fa.fi.params:
         if p in ("self", "config"):
+            continue
+        used = any(isinstance(x, ast.Name) and x.id == p and isinstance(x.ctx, ast.Load) for x in ast.walk(fa.node))
+        if not used:
+            ck.ob(R2, fa.key(None, "argument-applied:" + p), False,
+                  "the explicit argument %s is accepted and never used: whatever the caller passes, the configured (or default) value stays" % p, fa.where())
             continue
         slots = {}
         for s in fa.stmts(ast.Assign):
@@ -769,7 +1080,7 @@ def _cluster_backend_precedence(ck, R2, cfgm):
     """FunctionCluster: the storage / runner is the explicit object when one is given; otherwise the backend created
     from the configured section (its 'type' and the section itself) when the configuration has one; otherwise the
     default type with the default configuration."""
-    fc = FA(ck, "configuration.FunctionCluster.__init__")
+    fc = _FA(ck, "configuration.FunctionCluster.__init__")
     paths = _sym_paths(fc)
     ck.need(paths is not None, "FunctionCluster.__init__: too many paths")
     paths = [p for p in paths if p.end == "exit"]
@@ -818,7 +1129,7 @@ def _cluster_backend_precedence(ck, R2, cfgm):
 # =====================================================================================================
 def _registry_name(ck, q):
     """The module-level table that register() stores into (found by what register() does)."""
-    fa = FA(ck, q)
+    fa = _FA(ck, q)
     names = set()
     for s in fa.stmts(ast.Assign):
         for t in s.targets:
@@ -832,7 +1143,7 @@ def _registry_name(ck, q):
 
 def _create_rule(ck, R3):
     for q in ("storage.StorageBackend.create", "runner.RunnerBackend.create"):
-        fa = FA(ck, q)
+        fa = _FA(ck, q)
         reg = _registry_name(ck, q.rsplit(".", 1)[0] + ".register")
         params = [p for p in fa.fi.params if p not in ("cls", "self")]
         ck.need(len(params) == 2, "%s: expected (type, config) parameters" % q)
@@ -867,7 +1178,7 @@ def _create_rule(ck, R3):
 # R4: cluster search
 # =====================================================================================================
 def _first_match(ck, R4):
-    gc = FA(ck, "configuration.Environment.get_cluster")
+    gc = _FA(ck, "configuration.Environment.get_cluster")
     nm = [p for p in gc.fi.params if p != "self"][0]
     cfg = gc.cfg
     heads = [n for n in cfg.nodes if n.kind == "for" and n.id in cfg.reachable_nodes()]
@@ -908,6 +1219,8 @@ def _first_match(ck, R4):
         for s in A.walk_local(loop):
             if not isinstance(s, (ast.Return, ast.Assign)) or s.value is None or why:
                 continue
+            if any(gc.inside(s, b) for b in loop.orelse):
+                continue  # runs once the repositories are exhausted: judged with the no-hit exits below
             if isinstance(s, ast.Assign) and not (len(s.targets) == 1 and isinstance(s.targets[0], ast.Name)):
                 continue
             ids = gc.nodes(s)
@@ -994,8 +1307,8 @@ def _first_match(ck, R4):
 
 
 def _priority_ends(ck, R4):
-    pr = FA(ck, "configuration.Environment.prepend_repo")
-    ap = FA(ck, "configuration.Environment.append_repo")
+    pr = _FA(ck, "configuration.Environment.prepend_repo")
+    ap = _FA(ck, "configuration.Environment.append_repo")
 
     def shapes(fa):
         p = [x for x in fa.fi.params if x != "self"][0]
@@ -1038,7 +1351,7 @@ def _priority_ends(ck, R4):
 def _repo_order(ck, R4):
     """Environment.__init__: the configured repositories are built by ONE pass over the 'repos' list of the
     configuration, in list order (a comprehension without filter, or a loop that appends)."""
-    ei = FA(ck, "configuration.Environment.__init__")
+    ei = _FA(ck, "configuration.Environment.__init__")
 
     def reads_repos(e, at):
         try:
@@ -1456,8 +1769,8 @@ def check_nested_dumps(ck, R, reads_of):
     n = 0
     for clsname in ("FunctionCluster", "ConfigurationRepository", "Environment"):
         cls = cfgm.classes[clsname]
-        init = FA(ck, cls.methods["__init__"])
-        td = FA(ck, cls.methods["to_dict"])
+        init = _FA(ck, cls.methods["__init__"])
+        td = _FA(ck, cls.methods["to_dict"])
         entries = _dump_entries(td)
         fields = set()
         for s in init.stmts(ast.Assign):
@@ -1617,9 +1930,271 @@ def _nested_load(ck, R, cls, init, field, ec, cfg_key):
           "the constructor does not rebuild %s as the image of the configured %r section: %s" % (tgt, cfg_key, why), where)
 
 
+def _path_part(fa, e, at, pth, depth=10):
+    """Which part of the file path parameter `pth` an expression denotes: 'whole' (the path itself, possibly made
+    absolute / normalised / wrapped in Path or str), 'dir' (its directory), 'name' (its last component), None."""
+    if e is None or depth <= 0:
+        return None
+    rec = lambda x: _path_part(fa, x, at, pth, depth - 1)
+    if isinstance(e, ast.Name):
+        if e.id == pth and all(d.kind == "param" for d in fa.df.reaching(at, e.id)):
+            return "whole"
+        ds = fa.df.reaching(at, e.id)
+        if len(ds) != 1 or ds[0].value is None:
+            return None
+        d = ds[0]
+        if d.kind == "assign":
+            return _path_part(fa, d.value, d.node, pth, depth - 1)
+        if d.kind == "unpack" and isinstance(d.stmt, ast.Assign) and len(d.stmt.targets) == 1 and isinstance(d.stmt.targets[0], (ast.Tuple, ast.List)):
+            names = [A.norm(x) for x in d.stmt.targets[0].elts]
+            v = d.value
+            if e.id in names and len(names) == 2 and isinstance(v, ast.Call) and A.call_dotted(v) in ("os.path.split", "split") \
+                    and len(v.args) == 1 and _path_part(fa, v.args[0], d.node, pth, depth - 1) == "whole":
+                return ("dir", "name")[names.index(e.id)]
+            if e.id in names and isinstance(v, (ast.Tuple, ast.List)) and len(v.elts) == len(names):
+                return _path_part(fa, v.elts[names.index(e.id)], d.node, pth, depth - 1)
+        return None
+    if isinstance(e, ast.Call):
+        name = A.call_dotted(e) or ""
+        last = name.split(".")[-1]
+        if isinstance(e.func, ast.Attribute) and not e.args and last in ("resolve", "absolute", "expanduser", "as_posix", "__fspath__", "__str__"):
+            return rec(e.func.value)
+        if len(e.args) == 1 and not e.keywords:
+            inner = rec(e.args[0])
+            if last in ("str", "Path", "PurePath", "fspath", "abspath", "realpath", "normpath", "expanduser", "cast"):
+                return inner
+            if last == "dirname":
+                return "dir" if inner == "whole" else None
+            if last == "basename":
+                return "name" if inner == "whole" else None
+        if last == "cast" and len(e.args) == 2:
+            return rec(e.args[1])
+        return None
+    if isinstance(e, ast.Attribute):
+        inner = rec(e.value)
+        if e.attr == "parent":
+            return "dir" if inner == "whole" else None
+        if e.attr == "name":
+            return "name" if inner == "whole" else None
+        return None
+    if isinstance(e, ast.Subscript) and isinstance(e.slice, ast.Constant) and e.slice.value in (0, 1, -1, -2) and isinstance(e.value, ast.Call) \
+            and A.call_dotted(e.value) in ("os.path.split", "split") and len(e.value.args) == 1 and rec(e.value.args[0]) == "whole":
+        return "dir" if e.slice.value in (0, -2) else "name"
+    return None
+
+
 # =====================================================================================================
+# R7: template parameters reach the parsed configuration as given
+# =====================================================================================================
+# Environment(...) parameters in positional order (Template(source, ...) takes the same ones after the source)
+_JINJA_ORDER = ("block_start_string", "block_end_string", "variable_start_string", "variable_end_string", "comment_start_string", "comment_end_string",
+                "line_statement_prefix", "line_comment_prefix", "trim_blocks", "lstrip_blocks", "newline_sequence", "keep_trailing_newline", "extensions",
+                "optimized", "undefined", "finalize", "autoescape")
+_JINJA_SYNTAX = {"block_start_string": "{%", "block_end_string": "%}", "variable_start_string": "{{", "variable_end_string": "}}",
+                 "comment_start_string": "{#", "comment_end_string": "#}", "line_statement_prefix": None, "line_comment_prefix": None}
+_JINJA_TEMPLATE = ("jinja2:Template", "jinja2.environment:Template")
+_JINJA_ENVIRONMENT = ("jinja2:Environment", "jinja2.environment:Environment", "jinja2.sandbox:SandboxedEnvironment", "jinja2.sandbox:ImmutableSandboxedEnvironment")
+_PARSERS = ("json:load", "json:loads", "yaml:safe_load", "yaml:load", "yaml:full_load", "yaml:unsafe_load")
+
+
+class _Imports:
+    """The import table of a module, extended by the imports a function makes itself."""
+
+    def __init__(self, mod, func_node=None):
+        self.imports = dict(mod.imports)
+        self.assigns = mod.assigns
+        self.tree = mod.tree
+        for st in (ast.walk(func_node) if func_node is not None else ()):
+            if isinstance(st, ast.Import):
+                for a in st.names:
+                    self.imports[a.asname or a.name.split(".")[0]] = a.name
+            elif isinstance(st, ast.ImportFrom):
+                for a in st.names:
+                    self.imports[a.asname or a.name] = ("." * st.level) + (st.module or "") + ":" + a.name
+
+
+def _origin(mod, f):
+    """'package:name' of the imported thing a callee expression denotes (`Template`, `jinja2.Template`, an alias)."""
+    if isinstance(f, ast.Name):
+        o = mod.imports.get(f.id)
+        if o is None:
+            return None
+        return o if ":" in o else o + ":"
+    if isinstance(f, ast.Attribute):
+        d = A.dotted(f)
+        if not d:
+            return None
+        head, rest = d.split(".", 1)
+        o = mod.imports.get(head)
+        if o is None:
+            return None
+        if ":" in o:  # from jinja2 import sandbox -> sandbox.SandboxedEnvironment
+            pkg, name = o.split(":")
+            parts = [name] + rest.split(".")
+            return "%s.%s:%s" % (pkg, ".".join(parts[:-1]), parts[-1])
+        if o.startswith(head + "."):  # `import jinja2.sandbox` binds the name jinja2
+            o = head
+        parts = rest.split(".")
+        return "%s:%s" % (".".join([o] + parts[:-1]), parts[-1])
+    return None
+
+
+def _module_value(mod, e, depth=4):
+    """A module-level name replaced by the value it is bound to (once, at module level)."""
+    while isinstance(e, ast.Name) and depth > 0 and e.id in mod.assigns:
+        e = mod.assigns[e.id]
+        depth -= 1
+    return e
+
+
+def _jinja_options(ck, mod, call, skip_first):
+    """{option: expression} of a Template(...) / Environment(...) construction; AnalysisError when the call spreads
+    a mapping / sequence this rule cannot see into."""
+    if any(isinstance(a_, ast.Starred) for a_ in call.args) or any(k.arg is None for k in call.keywords):
+        raise AnalysisError("configuration._load_config: `%s` takes its options from a mapping this rule cannot see into" % A.short(call, 60))
+    opts = {}
+    pos = call.args[1:] if skip_first else call.args
+    for name, a_ in zip(_JINJA_ORDER, pos):
+        opts[name] = a_
+    for k in call.keywords:
+        if not (skip_first and k.arg == "source"):
+            opts[k.arg] = k.value
+    return opts
+
+
+def _escapes_strings(ck, mod, e):
+    """Does the `autoescape` setting `e` switch escaping on for a template made from a string (which has no name)?"""
+    e = _module_value(mod, e)
+    if isinstance(e, ast.Constant):
+        return bool(e.value)
+    if isinstance(e, ast.Call) and _origin(mod, e.func) in ("jinja2:select_autoescape", "jinja2.utils:select_autoescape"):
+        if any(isinstance(a_, ast.Starred) for a_ in e.args) or any(k.arg is None for k in e.keywords):
+            raise AnalysisError("configuration._load_config: `%s` cannot be decided" % A.short(e, 60))
+        d = A.arg_or_kw(e, 2, "default_for_string")
+        d = _module_value(mod, d) if d is not None else None
+        if d is None:
+            return True  # select_autoescape: default_for_string=True
+        if isinstance(d, ast.Constant):
+            return bool(d.value)
+        raise AnalysisError("configuration._load_config: `%s` cannot be decided" % A.short(e, 60))
+    if isinstance(e, ast.Lambda) and isinstance(e.body, ast.Constant):
+        return bool(e.body.value)
+    raise AnalysisError("configuration._load_config: autoescape setting `%s` cannot be decided" % A.short(e, 60))
+
+
+def _option_faults(ck, mod, opts, what):
+    """Why a template construction with these options does not substitute parameters as given ([] when it does)."""
+    out = []
+    if "autoescape" in opts and _escapes_strings(ck, mod, opts["autoescape"]):
+        out.append("%s switches HTML escaping on for templates made from a string (`autoescape=%s`): a parameter value containing & < > ' or \" "
+                   "arrives as &amp; &lt; ... in the parsed configuration, so a path or name given through a file differs from the same value given as "
+                   "constructor argument or inline dict" % (what, A.short(opts["autoescape"], 50)))
+    fin = opts.get("finalize")
+    if fin is not None and not A.is_none(_module_value(mod, fin)):
+        out.append("%s passes every substituted value through `%s` before it is parsed" % (what, A.short(fin, 40)))
+    for k, dflt in _JINJA_SYNTAX.items():
+        if k in opts:
+            v = _module_value(mod, opts[k])
+            if not (isinstance(v, ast.Constant) and v.value == dflt):
+                out.append("%s changes the template syntax (`%s=%s`): the documented {{ parameter }} form is no longer substituted" % (what, k, A.short(opts[k], 30)))
+    return out
+
+
+def check_template_parameters_verbatim(ck, R):
+    """A configuration file is a jinja2 template over the keyword arguments of from_file(...).  A parameter has the
+    same effect as the equivalent constructor argument / inline value only if it reaches the parsed text as given:
+    the text that is parsed is the rendered template, the template is rendered with exactly the caller's
+    parameters, and it is built without value-transforming options (autoescape on, finalize) or another syntax."""
+    ck.rule(R, "template parameters of a configuration file reach the parsed configuration as given: the parsed text is the rendered template, "
+               "rendered with the caller's keyword arguments, by a template built without escaping / finalizing / another syntax", 4)
+    fa = _FA(ck, "configuration._load_config")
+    mod = _Imports(fa.fi.module, fa.node)
+    ck.need(fa.node.args.kwarg is not None, "configuration._load_config: no **kwargs parameter (the template parameters)")
+    KW = fa.node.args.kwarg.arg
+    parses = [c for c in fa.calls() if _origin(mod, c.func) in _PARSERS and c.args and fa.nodes(c)]
+    if not parses:
+        # the parser chosen first (a table by file extension, a conditional expression) and called through a local
+        def parser_ref(atom):
+            if not atom.startswith(("attr:", "global:")):
+                return False
+            try:
+                return _origin(mod, ast.parse(atom.split(":", 1)[1], mode="eval").body) in _PARSERS
+            except SyntaxError:
+                return False
+        for c in fa.calls():
+            if c.args and fa.nodes(c) and not isinstance(c.func, ast.Attribute) and any(parser_ref(a_) for a_ in fa.deps(c.func, fa.nodes(c)[0])):
+                parses.append(c)
+    ck.need(parses, "configuration._load_config: no json / yaml parse call found")
+    renders = [c for c in fa.calls("render") if isinstance(c.func, ast.Attribute) and fa.nodes(c)]
+    for c in parses:
+        ok = "call:render" in fa.deps(c.args[0], fa.nodes(c)[0])
+        ck.ob(R, fa.key(c, "parsed-text-is-rendered"), ok, "`%s` parses the rendered template" % A.short(c, 40) if ok else
+              "`%s` parses text that did not go through the template: parameters given to from_file(...) are not substituted" % A.short(c, 50), fa.where(c))
+    # every loader that accepts template parameters hands them on to _load_config, all of them, as given
+    n_fwd = 0
+    for f in fa.fi.module.all_funcs():
+        if f.node.args.kwarg is None or f.qual == fa.qual or f.parent is not None:
+            continue
+        ff = _FA(ck, f)
+        for c in ff.calls(fa.fi.name):
+            if not ff.nodes(c):
+                continue
+            n_fwd += 1
+            kw = f.node.args.kwarg.arg
+            spread = [ff.xnorm(k.value, ff.nodes(c)[0]) for k in c.keywords if k.arg is None]
+            okf = any(x in (kw, "dict(%s)" % kw, "{**%s}" % kw, "%s.copy()" % kw) for x in spread)
+            ck.ob(R, ff.key(c, "parameters-forwarded"), okf, "%s hands its template parameters to the loader" % f.qual if okf else
+                  "%s accepts template parameters (**%s) but `%s` does not pass them on as given: the file is rendered without them"
+                  % (f.qual, kw, A.short(c, 50)), ff.where(c))
+    ck.need(n_fwd >= 1, "no file loader with template parameters (**kwargs) calling _load_config found")
+    if not renders:
+        return
+    for c in renders:
+        at = fa.nodes(c)[0]
+        # the caller's parameters, all of them, as given
+        handed = False
+        for a_ in [x.value if isinstance(x, ast.Starred) else x for x in c.args] + [k.value for k in c.keywords if k.arg is None]:
+            x = fa.xnorm(a_, at)
+            if x in (KW, "dict(%s)" % KW, "{**%s}" % KW, "dict(**%s)" % KW, "%s.copy()" % KW):
+                handed = True
+        ck.ob(R, fa.key(c, "parameters-handed-over"), handed, "the template is rendered with the caller's parameters" if handed else
+              "`%s` does not render the template with the caller's parameters (`**%s`) as given" % (A.short(c, 50), KW), fa.where(c))
+        # the template: built from the file's text, nothing that transforms substituted values
+        t = fa.expand(A.call_recv(c), at)
+        while isinstance(t, ast.Call) and isinstance(t.func, ast.Name) and t.func.id == "cast" and len(t.args) == 2:
+            t = t.args[1]
+        faults, src = [], None
+        if isinstance(t, ast.Call) and _origin(mod, t.func) in _JINJA_TEMPLATE:
+            src = A.arg_or_kw(t, 0, "source")
+            faults = _option_faults(ck, mod, _jinja_options(ck, mod, t, True), "`%s`" % A.short(t, 40))
+        elif isinstance(t, ast.Call) and A.call_attr(t) == "from_string" and A.call_recv(t) is not None:
+            src = A.arg_or_kw(t, 0, "source")
+            envx = A.call_recv(t)
+            env = _module_value(mod, envx)
+            if not (isinstance(env, ast.Call) and _origin(mod, env.func) in _JINJA_ENVIRONMENT):
+                raise AnalysisError("configuration._load_config: the template environment `%s` is not a jinja2 Environment construction this rule can see" % A.short(envx, 40))
+            what = "the template environment `%s`" % (A.norm(envx) if isinstance(envx, ast.Name) else A.short(env, 40))
+            opts = _jinja_options(ck, mod, env, False)
+            if isinstance(envx, ast.Name):
+                # settings applied to the shared environment after it was made
+                for x in ast.walk(mod.tree):
+                    if isinstance(x, ast.Assign):
+                        for tg in x.targets:
+                            if isinstance(tg, ast.Attribute) and isinstance(tg.value, ast.Name) and tg.value.id == envx.id:
+                                opts[tg.attr] = x.value
+            faults = _option_faults(ck, mod, opts, what)
+        else:
+            raise AnalysisError("configuration._load_config: `%s` is rendered, which is not a jinja2 Template / Environment.from_string construction this rule can see" % A.short(t, 60))
+        cfgp = fa.fi.params[1] if len(fa.fi.params) > 1 else "config"
+        if src is None or ("param:" + cfgp) not in fa.deps(src, at):
+            faults.append("the template is not made from the text of the configuration file")
+        ck.ob(R, fa.key(c, "substituted-as-given"), not faults, "parameters are substituted as given (no escaping, no finalizer, default syntax)" if not faults else
+              faults[0], fa.where(c))
+
+
 def check(ck):
     from .memo import check_new_memo_tables
+    ck.run(check_template_parameters_verbatim, ck, "C18.R7")
     ck.run(check_new_memo_tables, ck, "C18.M1", ('configuration', 'storage', 'storage_filesystem', 'storage_memory'))
     ck.rule("C18.R5", "constructors never modify the configuration object they are given", 4)
     ck.run(check_config_not_mutated, ck, "C18.R5")
@@ -1641,7 +2216,7 @@ def check(ck):
         ck.need(cls is not None, "%s.%s not found" % (modname, clsname))
         doc = _doc_options(mod)
         reads = _config_reads(ck, cls)
-        td = FA(ck, cls.methods["to_dict"]) if "to_dict" in cls.methods else None
+        td = _FA(ck, cls.methods["to_dict"]) if "to_dict" in cls.methods else None
         ck.need(td is not None, "%s.to_dict not found" % cls.qual)
         entries = _dump_entries(td)
         dumped = {e.key for e in entries}
@@ -1675,7 +2250,17 @@ def check(ck):
             first = [p for p in binit.params if p != "self"][0] if binit is not None and len(binit.params) > 1 else "storage_type"
             a0 = A.arg_or_kw(sup[0], 0, first)
             sname = _str_const(ck, mod, cls, a0) if a0 is not None else None
-        tvals = {_str_const(ck, mod, cls, e.value) for e in entries if e.key == "type"}
+        def type_value(e):
+            v = _str_const(ck, mod, cls, e)
+            f = A.dotted(e) if isinstance(e, ast.Attribute) else None
+            if v is None and f and f.startswith("self.") and f.count(".") == 1 and init is not None:
+                # `self.storage_type`: the field a base constructor keeps its type-name parameter in
+                again = [s2 for m_ in cls.methods.values() if m_.name != "__init__" for s2 in A.all_stmts(m_.node) if isinstance(s2, (ast.Assign, ast.AugAssign))
+                         and any(A.dotted(t_) == f for t_ in (s2.targets if isinstance(s2, ast.Assign) else [s2.target]))]
+                if not again:
+                    return _field_from_ctor_chain(ck, cls, init, f, {})
+            return v
+        tvals = {type_value(e.value) for e in entries if e.key == "type"}
         tname = next(iter(tvals)) if len(tvals) == 1 else None
         # the dump describes the backend AS IT IS: when it starts from the configuration the backend
         # was given (self.config), every option a constructor argument can override has to be
@@ -1717,7 +2302,7 @@ def check(ck):
     _create_rule(ck, R3)
     # filesystem specifics: options forwarded to the base backend; sources rooted at the configured paths
     fsc = ck.repo.module("storage_filesystem").classes["FilesystemStorageBackend"]
-    fsi = FA(ck, "storage_filesystem.FilesystemStorageBackend.__init__")
+    fsi = _FA(ck, "storage_filesystem.FilesystemStorageBackend.__init__")
     sup = fsi.one([c for c in fsi.calls("__init__") if isinstance(A.call_recv(c), ast.Call)], "super().__init__ call")
     binit = next((c.methods["__init__"] for c in ck.repo.mro(fsc)[1:] if "__init__" in c.methods), None)
     bparams = [p for p in binit.params if p != "self"] if binit is not None else []
@@ -1769,7 +2354,7 @@ def check(ck):
           "the metadata path is derived from the final value of the data path" if bad is None else
           "the metadata path ends up as `%s` where the data path is `%s`: it was derived before the explicit argument / default for the data path "
           "is applied; with config path A and argument path=B the derived option still points at A" % (A.short(bad[0], 60), ", ".join(bad[1])[:60]), fsi.where())
-    sbi = FA(ck, "storage_base.StorageBackendBase.__init__")
+    sbi = _FA(ck, "storage_base.StorageBackendBase.__init__")
     mc = [c for c in sbi.calls("MemoryCache")]
     okm = len(mc) == 1 and len(mc[0].args) + len(mc[0].keywords) == 1 and \
         "param:memory_cache_mb" in sbi.deps((mc[0].args + [k.value for k in mc[0].keywords])[0], sbi.nodes(mc[0])[0]) and \
@@ -1781,7 +2366,7 @@ def check(ck):
         cls = cfgm.classes[clsname]
         reads = _config_reads(ck, cls, membership=True)
         reads_of[clsname] = reads
-        td = FA(ck, cls.methods["to_dict"])
+        td = _FA(ck, cls.methods["to_dict"])
         dumped = {e.key for e in _dump_entries(td)}
         ok = reads == dumped
         ck.ob(R1, cls.qual + "::read-equals-dumped", ok, "%s reads and dumps the same keys %s" % (clsname, sorted(reads)) if ok else
@@ -1800,12 +2385,16 @@ def check(ck):
     # file loaders: sibling agreement — both split the path into (directory, file name) so that a
     # relative path is resolved against its own directory
     for q in ("configuration.ConfigurationRepository.from_file", "configuration.Environment.from_file"):
-        f = FA(ck, q)
+        f = _FA(ck, q)
         lc = f.one(f.calls("_load_config"), "_load_config call")
         pth = f.fi.params[0] if f.fi.is_static else f.fi.params[1]
         a0 = f.deps(lc.args[0]) if lc.args else set()
         a1 = f.deps(lc.args[1]) if len(lc.args) > 1 else set()
         ok = "call:dirname" in a0 and "call:basename" not in a0 and ("param:" + pth) in a0 and ("param:" + pth) in a1
+        if not ok and len(lc.args) > 1:
+            # the same split spelled otherwise: os.path.split(p) unpacked, Path(p).parent / .name, through temporaries
+            at = f.nodes(lc)[0]
+            ok = _path_part(f, lc.args[0], at, pth) == "dir" and _path_part(f, lc.args[1], at, pth) in ("name", "whole")
         ck.ob(R1, f.key(None, "relative-file"), ok, "the configuration file is resolved against its own directory" if ok else
               "%s passes `%s` as the base directory of the file: a relative path (also a relative MEMENTO_ENV) is looked up under "
               "'<file name>/<path>' and cannot be loaded" % (q.split(".")[-2] + ".from_file", A.short(lc.args[0], 50) if lc.args else "?"), f.where(lc))
